@@ -109,11 +109,12 @@ func (p *Prog) methodsStoring(n *types.Named, f string) []*ssa.Function {
 }
 
 // bindBucketFields: roles of ratelimit.tokenBucket's fields.
-//   lastRefresh   the only time.Time field
-//   timePerToken  the Duration field used as a divisor in a method of the bucket
-//   available     the int64 field stored with (itself - parameter) in a method with an int64 parameter
-//   lastConsumed  the int64 field stored with that parameter itself in the same method
-//   burst         the remaining int64 field
+//
+//	lastRefresh   the only time.Time field
+//	timePerToken  the Duration field used as a divisor in a method of the bucket
+//	available     the int64 field stored with (itself - parameter) in a method with an int64 parameter
+//	lastConsumed  the int64 field stored with that parameter itself in the same method
+//	burst         the remaining int64 field
 func bindBucketFields(p *Prog, n *types.Named) (avail, burst, tpt, lastRef, lastCons string) {
 	lastRef = fieldByRole(n, "lastRefresh", isTimeT, nil)
 	divisor := map[string]bool{}
